@@ -43,11 +43,20 @@ def build(case, seedkey="seed", mesh=None):
     return mesh, f, arr
 
 
+_SCALE = {"v": None}
+
+
+def set_scale(arr, measure):
+    """magnitude of the summands (sum of |values| times the largest measure involved): cancelling sums are compared
+    relative to what was added up, not relative to a result that may be exactly zero"""
+    _SCALE["v"] = float(np.abs(arr).sum()) * float(measure)
+
+
 def close(a, b):
     a, b = np.asarray(a), np.asarray(b)
     if a.shape != b.shape:
         return False
-    scale = max(1e-300, float(np.max(np.abs(b))) if b.size else 0.0)
+    scale = max(1e-300, float(np.max(np.abs(b))) if b.size else 0.0, _SCALE["v"] or 0.0)
     return bool(np.all(np.abs(a - b) <= 1e-12 * scale + 1e-13 * np.abs(b)))
 
 
@@ -78,6 +87,7 @@ def check_integrals(case):
     cell = [float(c) for c in mesh.cell]
     sp = tuple(range(nd))
     tag(f"ndim={nd}")
+    set_scale(arr, max(float(np.prod(cell)), *cell, *[float(np.prod(cell)) / c for c in cell]))
     total_ref = arr.sum(axis=sp) * float(np.prod(cell))
     total = f.integrate()
     require(np.shape(total) == (k,), "total-shape", f"{np.shape(total)}")
@@ -134,6 +144,7 @@ def check_mean(case):
     dims = list(mesh.region.dims)
     edges = [float(e) for e in mesh.region.edges]
     sp = tuple(range(nd))
+    _SCALE["v"] = float(np.max(np.abs(arr))) if arr.size else 0.0
     m = f.mean()
     require(np.shape(m) == (k,) and close(m, arr.mean(axis=sp)), "mean-all", f"{m}")
     require(close(m, f.integrate() / float(np.prod(edges))), "mean-is-integral-over-volume")
@@ -179,6 +190,8 @@ def check_linear(case):
     _, g2, b = build(case, "seed2", mesh=mesh)
     nd = mesh.region.ndim
     dims = list(mesh.region.dims)
+    cellv = [float(c) for c in mesh.cell]
+    set_scale(5 * (np.abs(a) + np.abs(b)), max(float(np.prod(cellv)), *cellv))
     comb = 2.0 * f + (-3.0) * g2
     require(close(comb.integrate(), 2.0 * f.integrate() - 3.0 * g2.integrate()), "linear-total")
     d = case["order"][0]
